@@ -256,6 +256,12 @@ def classify(fam, lab, o, why):
         return "schema-component-index-out-of-range"
     if site in ("Conn.executeQuery", "Conn.executeQueryAttempt", "Conn.executeBatch", "Conn.executeBatchAttempt") and cls == "index-out-of-range":
         return "prepared-bind-metadata-without-columns"
+    if site == "Session.routingKeyInfo" and cls == "index-out-of-range":
+        return "routingkey-pk-index-beyond-columns"
+    if site == "createRoutingKey" and cls == "index-out-of-range":
+        return "routingkey-pk-index-beyond-values"
+    if site in ("iterScanner.Scan", "iterScanner.Next") and cls == "index-out-of-range":
+        return "scanner-later-page-more-columns"
     if site == "HostInfo.ConnectAddress":
         return "hostinfo-no-connect-address-panic"
     if site == "startupCoordinator.authenticateHandshake" and cls == "nil-deref":
@@ -469,17 +475,24 @@ def run(ctx):
 
     # ---- evidence
     sample = None
-    with open(fams["frame"].inp) as fi, open(fams["frame"].lab) as fl, open(fams["frame"].inp + ".res") as fr:
-        labs0 = fl.readline()
-        for li in fi:
-            inp = json.loads(li)
-            if inp["id"] == ID_BASE["frame"]:
-                break
-        for lr in fr:
-            first = json.loads(lr)
-            if first["id"] == ID_BASE["frame"]:
-                sample = dict(family="frame", label=json.loads(labs0), input=inp, observations=first["obs"])
-                break
+    for fam in FAMS:
+        F = fams[fam]
+        if not F.n or not os.path.exists(F.inp + ".res"):
+            continue
+        with open(F.inp) as fi, open(F.lab) as fl, open(F.inp + ".res") as fr:
+            labs0 = fl.readline()
+            inp = None
+            for li in fi:
+                inp = json.loads(li)
+                if inp["id"] == ID_BASE[fam]:
+                    break
+            for lr in fr:
+                first = json.loads(lr)
+                if first["id"] == ID_BASE[fam]:
+                    sample = dict(family=fam, label=json.loads(labs0), input=inp, observations=first["obs"])
+                    break
+        if sample:
+            break
     ctx.cov = dict(
         evaluations=nobs,
         distinct_nontrivial=sum(len(fams[k].distinct) for k in FAMS),
